@@ -205,6 +205,23 @@ Proof. exact gen_not. Qed.
 Theorem C16_gen_xor : forall v l, XorCallback.condition (map (cond v) l) = cond v (PXor l).
 Proof. exact gen_xor. Qed.
 
+(* & | ^ ~ build a new node from (self, other) and do not touch their operands; set_action_callback keeps the node *)
+Theorem C16_gen_operators : forall p q : pred,
+  Operators.and_ PAnd POr PXor PNot p q = PAnd [p; q] /\ Operators.or_ PAnd POr PXor PNot p q = POr [p; q] /\
+  Operators.xor_ PAnd POr PXor PNot p q = PXor [p; q] /\ Operators.invert PAnd POr PXor PNot p = PNot p.
+Proof. exact gen_operators. Qed.
+
+Theorem C16_gen_operator_meaning : forall v (p q : pred),
+  cond v (Operators.and_ PAnd POr PXor PNot p q) = cond v p && cond v q /\
+  cond v (Operators.or_ PAnd POr PXor PNot p q) = cond v p || cond v q /\
+  cond v (Operators.xor_ PAnd POr PXor PNot p q) = xorb (cond v p) (cond v q) /\
+  cond v (Operators.invert PAnd POr PXor PNot p) = negb (cond v p).
+Proof. exact gen_operator_meaning. Qed.
+
+Theorem C16_gen_set_action : forall (T A : Type) (c : T * option A) (a : A),
+  fst (Operators.set_action_callback c a) = fst c /\ snd (Operators.set_action_callback c a) = Some a.
+Proof. exact gen_set_action. Qed.
+
 (* ConditionCallback.__call__: the action runs iff the condition holds (and an action is attached) *)
 Theorem C16_gen_call : forall c a, ConditionCallback.call c a = c && a.
 Proof. exact gen_call. Qed.
